@@ -80,15 +80,20 @@ func loadReplay(path string) (*replayFile, error) {
 	return &rf, nil
 }
 
-// replayKnown runs the committed replays of the findings listed for a property (shard 0 only).
+// replayKnown runs the committed replays of the findings listed for a property.
 // open finding still failing  -> KNOWN-FINDING line (via recorder), no violation
 // open finding now passing    -> note
 // fixed finding failing again -> violation
 func replayKnown(t *testing.T, property string) {
-	if os.Getenv("VERIF_SHARD") != "0" && os.Getenv("VERIF_SHARD") != "" {
-		return
+	// the replays are dealt out over the shards (each is run by exactly one of them)
+	shard, nshards := 0, 1
+	fmt.Sscan(os.Getenv("VERIF_SHARD"), &shard)
+	fmt.Sscan(os.Getenv("VERIF_NSHARDS"), &nshards)
+	if nshards < 1 {
+		nshards = 1
 	}
 	rec := core.Rec(property)
+	idx := -1
 	for _, f := range core.AllFindings() {
 		applies := f.Property == property
 		for _, a := range f.Also {
@@ -109,6 +114,10 @@ func replayKnown(t *testing.T, property string) {
 		}
 		if rf.Property != property {
 			continue // replayed by the property that owns the replay's oracle
+		}
+		idx++
+		if idx%nshards != shard%nshards {
+			continue
 		}
 		fn := replayers[rf.Check]
 		if fn == nil {
